@@ -23,9 +23,12 @@ type c18Case struct {
 
 var c18Patterns = []string{
 	".*", "foo.+", "^abc$", "a|b", "(a)(b)", "[a-z]+", "x{1,3}", // valid
+	"\\\\Qabc", "a\\\\Q)", "\\\\Qa|b", // valid alone, not inside a group: quoting runs to the end of the pattern
 	"a(", "[z-a]", "*a", "x{3,1}", "(?P<n>a", "\\\\", "a)", "(?i", // invalid
 	"{{ $alert }}.*", "{{ $record }}", "{{ $labels.team }}", "{{ $labels.team }}-.+", "{{ $annotations.summary }}", "{{ $for }}", // templated
 	"{{ .Alert }}", "{{ $alert }}|{{ $record }}", "{{ $labels.missing }}x",
+	// valid for the empty rule the configuration is validated with, invalid for some label values even after quoting
+	".{1,{{ $labels.team }}}", "[{{ $labels.team }}-z].*", "[a-{{ $labels.team }}]+", "x{ {{ $labels.severity }},2}", "(a{2,{{ $labels.team }}}){2}",
 	"{{ nofunc }}", "{{ $alert", "{{ end }}", "{{ $labels.team | len }}", "{{ printf \\\"%s\\\" $alert }}", // template problems
 	"", " ", "{{", "}}",
 }
@@ -33,13 +36,13 @@ var c18Patterns = []string{
 func c18Pat(rr *rand.Rand) string {
 	switch x := rr.Intn(20); {
 	case x < 9:
-		return hx.Pick(rr, c18Patterns[:7]) // valid
+		return hx.Pick(rr, c18Patterns[:10]) // valid
 	case x < 17:
-		return hx.Pick(rr, c18Patterns[15:24]) // templated, well formed
+		return hx.Pick(rr, c18Patterns[18:32]) // templated, well formed
 	case x < 18:
-		return hx.Pick(rr, c18Patterns[7:15]) // invalid regexp
+		return hx.Pick(rr, c18Patterns[10:18]) // invalid regexp
 	default:
-		return hx.Pick(rr, c18Patterns[24:]) // template problems, empties
+		return hx.Pick(rr, c18Patterns[32:]) // template problems, empties
 	}
 }
 
@@ -57,7 +60,7 @@ func c18Val(rr *rand.Rand) string {
 	case 0:
 		return ".*"
 	case 1:
-		return hx.Pick(rr, c18Patterns[7:15]) // invalid regexp
+		return hx.Pick(rr, c18Patterns[10:18]) // invalid regexp
 	default:
 		return c18Pat(rr)
 	}
@@ -106,12 +109,12 @@ func c18Match(rr *rand.Rand, kw string) string {
 			case 0:
 				lv = ".*"
 				if rr.Intn(2) == 0 {
-					av = hx.Pick(rr, c18Patterns[7:15])
+					av = hx.Pick(rr, c18Patterns[10:18])
 				}
 			case 1:
 				av = ".*"
 				if rr.Intn(2) == 0 {
-					lv = hx.Pick(rr, c18Patterns[7:15])
+					lv = hx.Pick(rr, c18Patterns[10:18])
 				}
 			}
 			fmt.Fprintf(&sb, "    label \"%s\" {\n      value = \"%s\"\n    }\n", hx.Pick(rr, []string{"team", "severity", "job", "team"}), lv)
@@ -185,7 +188,7 @@ func c18Config(rr *rand.Rand) string {
 	return sb.String()
 }
 
-var c18Names = []string{"Down", "a(", "x[", "*up", "a)b", "{{ x }}", "foo|bar", "a\\\\b", "é", "$1", "a{1", "(?i)x"}
+var c18Names = []string{"Down", "a(", "x[", "*up", "a)b", "{{ x }}", "foo|bar", "a\\\\b", "é", "$1", "a{1", "(?i)x", "2000", "~", "0", "1"}
 
 func c18Rules(rr *rand.Rand) string {
 	var sb strings.Builder
